@@ -357,7 +357,7 @@ def linked_text(defs):
                                       ('ctrl_read', 'genL_ctrl_read')])
     out = out.replace('From RL Require Import Spec.SpecDecode Proofs.RefineDecode Proofs.Totality.',
                       'From RL Require Import Spec.SpecDecode Spec.SpecEncode Proofs.RefineDecode Proofs.Totality Proofs.RoundTrip '
-                      'Proofs.DataRoundTrip Proofs.EncodeFacts Proofs.RefineEncode.')
+                      'Proofs.DataRoundTrip Proofs.EncodeFacts Proofs.RefineEncode Proofs.Framing Proofs.Sequence Proofs.Options Proofs.Reencode Proofs.Transport.')
     out += LINKED_TAIL
     kinds = sorted(MODEL_DEC) + ['Hidden', 'SequencingRequired']
     enc_need = ['gen_enc_avp', 'gen_enc_ctrl', 'gen_enc_data'] + ['gen_wr_%s' % k for k in kinds] + ['gen_len_%s' % k for k in kinds]
@@ -460,7 +460,47 @@ Qed.
 Theorem G_C06_encode_refines_spec : forall v p,
   genL_encode v p = if encodable v then Val (p ++ s_encode v) else Panic PkAssert.
 Proof. intros. rewrite regenerated_encoder_is_model. apply encode_octets. Qed.
+Theorem G_C07_lengths_exact : forall v p out, genL_encode v p = Val out ->
+  exists body, out = p ++ body /\ body = s_encode v /\
+               match v with Control m => walk_ok body = true | Data _ => True end.
+Proof. intros v p out. rewrite regenerated_encoder_is_model. apply lengths_exact. Qed.
+Theorem G_C09_prefix_independent : forall v p, genL_encode v p = omap (app p) (genL_encode v []).
+Proof. intros. rewrite !regenerated_encoder_is_model. apply prefix_independent. Qed.
+Theorem G_C08_suffix : forall o b s m rest, bytes_ok b = true -> bytes_ok s = true ->
+  run (genL_msg_read o) b = Val (Ok m, rest) ->
+  (fw_T (fld 2 0 b) = true \/ fw_L (fld 2 0 b) = true) ->
+  run (genL_msg_read o) (b ++ s) = Val (Ok m, rest ++ s).
+Proof. intros o b s m rest. rewrite !regenerated_decoder_is_model. apply model_suffix. Qed.
+Theorem G_C08_back_to_back : forall v rest, framed v = true -> bytes_ok (s_encode v ++ rest) = true ->
+  run (genL_msg_read strict_opts) (s_encode v ++ rest) = Val (Ok (canon v), rest).
+Proof. intros v rest. rewrite regenerated_decoder_is_model. apply model_back_to_back. Qed.
+Theorem G_C10_reencode_ctrl : forall o b m rest, bytes_ok b = true ->
+  run (genL_msg_read o) b = Val (Ok (Control m), rest) ->
+  exists e, genL_encode (Control m) [] = Val e /\
+            run (genL_msg_read strict_opts) e = Val (Ok (Control (with_length m (len e))), []) /\
+            genL_encode (Control (with_length m (len e))) [] = Val e.
+Proof.
+  intros o b m rest B. rewrite regenerated_decoder_is_model. intros D.
+  destruct (model_reencode_ctrl o b m rest B D) as [e [E1 [E2 E3]]]. exists e.
+  rewrite !regenerated_encoder_is_model, regenerated_decoder_is_model. auto.
+Qed.
+Theorem G_C14_monotone : forall o o' b m rest, bytes_ok b = true -> opts_le o o' = true ->
+  run (genL_msg_read o') b = Val (Ok m, rest) -> run (genL_msg_read o) b = Val (Ok m, rest).
+Proof. intros o o' b m rest. rewrite !regenerated_decoder_is_model. apply model_monotone. Qed.
+Theorem G_C15_err_nonempty : forall o b es rest, bytes_ok b = true ->
+  run (genL_msg_read o) b = Val (Err es, rest) -> es <> [].
+Proof.
+  intros o b es rest B. rewrite regenerated_decoder_is_model. intros D.
+  destruct (message_total o b B) as [r [rest' [E HH]]]. rewrite E in D. inversion D; subst.
+  destruct HH as [O|[e [es' X]]]; [discriminate O|]. inversion X. discriminate.
+Qed.
 Print Assumptions G_C03_ctrl_roundtrip.
 Print Assumptions G_C04_data_roundtrip.
 Print Assumptions G_C06_encode_refines_spec.
+Print Assumptions G_C07_lengths_exact.
+Print Assumptions G_C08_suffix.
+Print Assumptions G_C09_prefix_independent.
+Print Assumptions G_C10_reencode_ctrl.
+Print Assumptions G_C14_monotone.
+Print Assumptions G_C15_err_nonempty.
 '''
